@@ -140,6 +140,8 @@ def gen_align(rng, malformed=False, big=False):
         fmin = REF + lo * grid + off_lo
         fmax = REF + hi * grid + off_hi
         gb = rng.choice([GB, GB, GB, 2 * GRID, 0, 50000000000])
+        if fmax < fmin:
+            fmax = fmin                                 # well-formed maps have f_min <= f_max
         if malformed and rng.random() < 0.3:
             fmin, fmax = fmax + 3 * grid, fmin          # degenerate extent
         n = max(0, f2n(fmax, grid) - f2n(fmin, grid) + 1)
@@ -251,8 +253,9 @@ def gen_cob(rng, stream):
         slots = gen_bands_slots(rng, lo + 2, hi - 2, nb, 3)
         bands = []
         for a, b in slots:
-            bands.append([REF + a * grid + rng.choice([0, 1, -1]) * rng.randint(1, grid - 1),
-                          REF + b * grid + rng.choice([0, 1, -1]) * rng.randint(1, grid - 1)])
+            e1 = REF + a * grid + rng.choice([0, 1, -1]) * rng.randint(1, grid - 1)
+            e2 = REF + b * grid + rng.choice([0, 1, -1]) * rng.randint(1, grid - 1)
+            bands.append([e1, e2] if e1 < e2 else [REF + a * grid, REF + b * grid])
     elif stream == 'touching':
         # two bands disjoint in frequency whose facing edges fall into the same slot (int() cell of slot a)
         a = rng.randint(lo + 2, hi - 4)
